@@ -173,9 +173,13 @@ def positional (toks : List String) : List String := toks.filter fun t => !(t.co
 
 /-! ### events on the model: the API call sequence of `wallet.addRelevantTx` in one DB transaction -/
 
-def evInsert (s : Store) (t : Tx) (bm : Option BlockMeta) (cr : List (Nat × Bool)) : M (Bool × Store) := do
+def evInsert (force : Bool) (s : Store) (t : Tx) (bm : Option BlockMeta) (cr : List (Nat × Bool)) : M (Bool × Store) := do
   let (ex, s1) ← insertTx s t bm
-  if ex then pure (true, s1)
+  -- `force`: a client that calls AddCredit after InsertTx whatever InsertTx answered (as wtxmgr's own tests do)
+  if ex && !force then pure (true, s1)
+  else if ex then do
+    let s2 ← cr.foldlM (fun s (i, chg) => addCredit s t bm i chg) s1
+    pure (true, s2)
   else
     let s2 ← cr.foldlM (fun s (i, chg) => addCredit s t bm i chg) s1
     pure (false, s2)
@@ -202,8 +206,8 @@ def step (st : St) (line : String) : St × String :=
   | "ev" :: kind :: tid :: rest =>
     match st.tx? tid, parseBlockMeta rest, parseCredits ((kv toks "cr").getD "") with
     | some t, some bm, some cr =>
-      if (kind == "seen" && bm.isNone) || (kind == "conf" && bm.isSome) then
-        match evInsert st.s t bm cr with
+      if ((kind == "seen" || kind == "seen!") && bm.isNone) || ((kind == "conf" || kind == "conf!") && bm.isSome) then
+        match evInsert (kind.endsWith "!") st.s t bm cr with
         | .ok (ex, s') =>
           let e := match bm with
             | none => Ledger.Event.seen t cr
